@@ -16,13 +16,13 @@ def lines_of(text):
     return ls
 
 
-_STRUCTURAL_TAB = re.compile(r'(?<![^\W\d_])\t')      # a tab that does not directly follow a letter
+_STRUCTURAL_TAB = re.compile(r'(?<![^\W\d_])(?<![^\W\d_]>)\t')      # a tab that follows neither a letter nor a letter and '>'
 
 
 def in_domain(text):
     # a tab inside the indentation or after a marker is expanded relative to its column, which the embedding shifts
     # (the statement's 'W spaces before every other line' does not preserve such lines); a tab that directly follows
-    # a letter is ordinary content and must survive
+    # a letter (or a letter and '>') is ordinary content and must survive
     if text == '' or _STRUCTURAL_TAB.search(text):
         return 'structural tab or empty'
     ls = lines_of(text)
